@@ -889,9 +889,10 @@ Proof.
     split; [|split; [exact Hs|exact Hw]].
     unfold is_ack3 in Ea. unfold handle_cap, no_sts.
     destruct (Nat.leb 2 (length params) && streqb (param1 params) s_DEL) eqn:E1.
-    { cbn [fst st_tmp st_enabled]. split; [exact Ht|]. apply fold_adel_none. exact He. }
+    { cbn [fst st_tmp st_enabled]. split; [first [exact Ht | apply fold_adel_none; exact Ht]|].
+      apply fold_adel_none. exact He. }
     destruct (Nat.leb 2 (length params) && streqb (param1 params) s_NAK) eqn:E2.
-    { cbn [fst]. split; assumption. }
+    { cbn [fst st_tmp st_enabled]. split; first [assumption | reflexivity]. }
     cbv zeta. rewrite Ea.
     assert (Htmp : aget s_sts
                      (if Nat.leb 3 (length params) && (streqb (param1 params) s_LS || streqb (param1 params) s_NEW)
